@@ -1,6 +1,7 @@
 package verifharness
 
 import (
+	"encoding/json"
 	"fmt"
 	"math/rand"
 
@@ -50,7 +51,8 @@ type recorder struct {
 	hostSets bool
 	layouts  bool
 	events   []recEvent
-	by       *bystander // another runner alive in the process, stepped in between (see core_run.go)
+	by       *bystander       // another runner alive in the process, stepped in between (see core_run.go)
+	fixed    map[int][]string // scripts that are run as they were written (core fromscripts), by case id
 }
 
 func (rc *recorder) emit(e recEvent) error {
@@ -79,6 +81,9 @@ func (rc *recorder) drive(ci int, c *Case, path int) error {
 		l = randomLayout(rnd)
 	}
 	texts := renderCase(c, l)
+	if t, ok := rc.fixed[c.ID]; ok {
+		texts = t
+	}
 	if err := rc.emit(recEvent{Ev: "reset", Case: ci, ID: c.ID, Path: path, Layout: l.describe(), Texts: texts}); err != nil {
 		return err
 	}
@@ -105,7 +110,7 @@ func (rc *recorder) walk(h *host, c *Case, r int) error {
 	nopts := 0
 	for call := 0; call < rc.maxCalls; call++ {
 		rc.by.poke()
-		if rc.hostSets && h.storer != nil && rnd.Intn(6) == 0 {
+		if rc.hostSets && h.storer != nil && len(c.Vars) > 0 && rnd.Intn(6) == 0 {
 			name := c.Vars[rnd.Intn(len(c.Vars))]
 			v := randomHostVal(rnd)
 			h.hostSet(name, v)
@@ -165,6 +170,9 @@ func (rc *recorder) driveSnap(ci int, c *Case, path int) error {
 	rnd := rc.rnd
 	l := canonicalLayout()
 	texts := renderCase(c, l)
+	if t, ok := rc.fixed[c.ID]; ok {
+		texts = t
+	}
 	if err := rc.emit(recEvent{Ev: "reset", Case: ci, ID: c.ID, Path: path, Layout: l.describe(), Texts: texts}); err != nil {
 		return err
 	}
@@ -306,6 +314,24 @@ func coreRecord(m map[string]string) error {
 		return err
 	}
 	paths := argInt(m, "paths", 3)
+	var fixed map[int][]string
+	if m["texts"] != "" {
+		lines, err := readNDJSON(m["texts"])
+		if err != nil {
+			return err
+		}
+		fixed = map[int][]string{}
+		for _, raw := range lines {
+			var t struct {
+				ID    int      `json:"id"`
+				Texts []string `json:"texts"`
+			}
+			if err := json.Unmarshal(raw, &t); err != nil {
+				return err
+			}
+			fixed[t.ID] = t.Texts
+		}
+	}
 	type job struct{ ci, path int }
 	jobs := make([]job, 0, len(cases)*paths)
 	for ci := range cases {
@@ -319,7 +345,7 @@ func coreRecord(m map[string]string) error {
 	parallelFor(len(jobs), func(j int) {
 		jb := jobs[j]
 		rc := &recorder{rnd: rand.New(rand.NewSource(base + int64(j)*1000003)), maxCalls: argInt(m, "calls", 30),
-			hostSets: m["hostsets"] == "1", layouts: m["layouts"] == "random", rebinds: m["rebinds"] == "1"}
+			hostSets: m["hostsets"] == "1", layouts: m["layouts"] == "random", rebinds: m["rebinds"] == "1", fixed: fixed}
 		if m["mode"] == "snap" {
 			errs[j] = rc.driveSnap(jb.ci+1, cases[jb.ci], jb.path)
 		} else {
